@@ -8,6 +8,7 @@ import (
 	"errors"
 	"fmt"
 	"io"
+	"sync/atomic"
 	"time"
 
 	"github.com/cloudwego/eino/callbacks"
@@ -1022,6 +1023,14 @@ func drainHandler() callbacks.Handler {
 
 const watchdog = 10 * time.Second
 
+// a call that has not returned after the watchdog period is given a second, longer period before
+// it is called a hang (the machine may be heavily loaded: slowness is no observation); once a
+// hang has been confirmed in this process the short period applies to the remaining cases, so
+// that an implementation that hangs often does not stall the run.
+const watchdogGrace = 50 * time.Second
+
+var hangConfirmed atomic.Bool
+
 // guarded runs f with panic recovery and a watchdog.
 func guarded(f func() POut) POut {
 	done := make(chan POut, 1)
@@ -1036,8 +1045,16 @@ func guarded(f func() POut) POut {
 	case o := <-done:
 		return o
 	case <-time.After(watchdog):
-		return POut{Class: "hang"}
 	}
+	if !hangConfirmed.Load() {
+		select {
+		case o := <-done:
+			return o
+		case <-time.After(watchdogGrace):
+		}
+		hangConfirmed.Store(true)
+	}
+	return POut{Class: "hang"}
 }
 
 func drain[O any](sr *schema.StreamReader[O]) ([]O, error) {
